@@ -30,6 +30,11 @@ class SpyControl:
         self.opened = 0
         self.armed = True
 
+    def leaked(self):
+        """paths of handles aioftp received and that are not closed (a real file
+        object closed by a pool job whose awaiter was cancelled counts as closed)"""
+        return sorted(p for p, f in self.open_files.values() if not getattr(f, "closed", False))
+
     async def before(self, op, args):
         if not self.armed:
             return
@@ -41,14 +46,19 @@ class SpyControl:
                 p = a
                 break
         self.calls.append((op, None if p is None else str(p)))
-        if self.delay and (self.delay_ops is None or op in self.delay_ops):
-            await asyncio.sleep(self.delay)
         if self.fail_at is not None and k == self.fail_at:
             self.failed.append((k, op))
             raise self.fail_exc(5, f"injected failure at backend call {k} ({op})")
         if self.fail_from is not None and k >= self.fail_from and op == self.fail_op:
             self.failed.append((k, op))
             raise self.fail_exc(5, f"injected failure at backend call {k} ({op})")
+
+
+async def _after(ctl, op):
+    """completion latency: the operation has taken effect (like a job handed to
+    a thread pool), only its completion is reported late"""
+    if ctl.armed and ctl.delay and (ctl.delay_ops is None or op in ctl.delay_ops):
+        await asyncio.sleep(ctl.delay)
 
 
 def make_spy(base, ctl):
@@ -63,32 +73,44 @@ def make_spy(base, ctl):
         @ue
         async def exists(self, path):
             await ctl.before("exists", (path,))
-            return await super().exists(path)
+            r = await super().exists(path)
+            await _after(ctl, "exists")
+            return r
 
         @ue
         async def is_dir(self, path):
             await ctl.before("is_dir", (path,))
-            return await super().is_dir(path)
+            r = await super().is_dir(path)
+            await _after(ctl, "is_dir")
+            return r
 
         @ue
         async def is_file(self, path):
             await ctl.before("is_file", (path,))
-            return await super().is_file(path)
+            r = await super().is_file(path)
+            await _after(ctl, "is_file")
+            return r
 
         @ue
         async def mkdir(self, path, **kw):
             await ctl.before("mkdir", (path,))
-            return await super().mkdir(path, **kw)
+            r = await super().mkdir(path, **kw)
+            await _after(ctl, "mkdir")
+            return r
 
         @ue
         async def rmdir(self, path):
             await ctl.before("rmdir", (path,))
-            return await super().rmdir(path)
+            r = await super().rmdir(path)
+            await _after(ctl, "rmdir")
+            return r
 
         @ue
         async def unlink(self, path):
             await ctl.before("unlink", (path,))
-            return await super().unlink(path)
+            r = await super().unlink(path)
+            await _after(ctl, "unlink")
+            return r
 
         def list(self, path):
             inner = super().list(path)
@@ -97,19 +119,24 @@ def make_spy(base, ctl):
                 @ue
                 async def __anext__(s):
                     await ctl.before("list", (path,))
-                    return await inner.__anext__()
+                    r = await inner.__anext__()
+                    await _after(ctl, "list")
+                    return r
 
             return L(timeout=self.timeout)
 
         @ue
         async def stat(self, path):
             await ctl.before("stat", (path,))
-            return await super().stat(path)
+            r = await super().stat(path)
+            await _after(ctl, "stat")
+            return r
 
         @ue
         async def _open(self, path, *a, **kw):
             await ctl.before("_open", (path,))
             f = await super()._open(path, *a, **kw)
+            await _after(ctl, "_open")
             ctl.opened += 1
             ctl.open_files[id(f)] = (str(path), f)
             return f
@@ -117,17 +144,23 @@ def make_spy(base, ctl):
         @ue
         async def seek(self, file, *a, **kw):
             await ctl.before("seek", ())
-            return await super().seek(file, *a, **kw)
+            r = await super().seek(file, *a, **kw)
+            await _after(ctl, "seek")
+            return r
 
         @ue
         async def write(self, file, *a, **kw):
             await ctl.before("write", ())
-            return await super().write(file, *a, **kw)
+            r = await super().write(file, *a, **kw)
+            await _after(ctl, "write")
+            return r
 
         @ue
         async def read(self, file, *a, **kw):
             await ctl.before("read", ())
-            return await super().read(file, *a, **kw)
+            r = await super().read(file, *a, **kw)
+            await _after(ctl, "read")
+            return r
 
         @ue
         async def close(self, file):
@@ -136,6 +169,7 @@ def make_spy(base, ctl):
             await ctl.before("close", ())
             r = await super().close(file)
             ctl.open_files.pop(id(file), None)
+            await _after(ctl, "close")
             return r
 
         @ue
@@ -143,7 +177,9 @@ def make_spy(base, ctl):
             await ctl.before("rename", (source, destination))
             if ctl.armed:
                 ctl.calls[-1] = ("rename", str(source) + " -> " + str(destination))
-            return await super().rename(source, destination)
+            r = await super().rename(source, destination)
+            await _after(ctl, "rename")
+            return r
 
     Spy.__name__ = "Spy" + base.__name__
     return Spy
